@@ -27,6 +27,9 @@ import (
 )
 
 const clockPath = "clocks"
+
+// clockRebuildMarker is a file of the local storage that exists while the clocks are being rebuilt
+const clockRebuildMarker = "clocks-rebuilding"
 const indexPath = "indexes"
 
 var _ ClockedRepo = &GoGitRepo{}
@@ -80,10 +83,15 @@ func OpenGoGitRepo(path, namespace string, clockLoaders []ClockLoader) (*GoGitRe
 		localStorage: billyLocalStorage{Filesystem: osfs.New(filepath.Join(path, namespace))},
 	}
 
+	// A rebuild that was interrupted leaves clocks that exist but are still behind the
+	// stored entities: in that case every loader has to run again.
+	_, err = repo.localStorage.Stat(clockRebuildMarker)
+	interrupted := err == nil
+
 	loaderToRun := make([]ClockLoader, 0, len(clockLoaders))
 	for _, loader := range clockLoaders {
 		loader := loader
-		allExist := true
+		allExist := !interrupted
 		for _, name := range loader.Clocks {
 			if _, err := repo.getClock(name); err != nil {
 				allExist = false
@@ -99,6 +107,19 @@ func OpenGoGitRepo(path, namespace string, clockLoaders []ClockLoader) (*GoGitRe
 		}
 	}
 
+	if len(loaderToRun) == 0 {
+		return repo, nil
+	}
+
+	marker, err := repo.localStorage.Create(clockRebuildMarker)
+	if err != nil {
+		return nil, err
+	}
+	err = marker.Close()
+	if err != nil {
+		return nil, err
+	}
+
 	var errG errgroup.Group
 	for _, loader := range loaderToRun {
 		loader := loader
@@ -108,6 +129,13 @@ func OpenGoGitRepo(path, namespace string, clockLoaders []ClockLoader) (*GoGitRe
 	}
 	err = errG.Wait()
 	if err != nil {
+		return nil, err
+	}
+
+	// another process opening the repository at the same time may have completed the same
+	// rebuild and removed the marker already
+	err = repo.localStorage.Remove(clockRebuildMarker)
+	if err != nil && !os.IsNotExist(err) {
 		return nil, err
 	}
 
